@@ -231,12 +231,15 @@ def sec_unitary_values(ctx, rng, case):
             ctx.check(False, "decompose", "C04:decompose-nonunitary-part:" + name, "decomposition of a unitary value contains %r" % (bad,), **wit)
             continue
         insensitive = phase_ok or "CircuitOperation" in desc and False
+        # values given as bare matrices are decomposed by numerical synthesis (KAK / three-qubit cosine-sine), whose
+        # reconstruction error at the default atol is the one C15 allows those routines (1e-5), not rounding size
+        dtol = 1e-5 if ("matrix" in spec.tags or "custom" in spec.tags) and len(spec.shape) >= 2 else 1e-6
         if insensitive:
-            ok = L.phase_equal(M, E, 1e-6)
+            ok = L.phase_equal(M, E, dtol)
         else:
-            ok = L.allclose(M, E, 1e-6)
+            ok = L.allclose(M, E, dtol)
         mech = "C04:decompose%s:%s" % ("-full" if full else "-once", name)
-        if not ok and L.phase_equal(M, E, 1e-6):
+        if not ok and L.phase_equal(M, E, dtol):
             mech = "C04:decompose-global-phase:" + name
         ctx.check(ok, "decompose", mech, lambda: "product of the decomposition deviates by %.3g (%.3g up to phase)" % (L.maxdiff(M, E), L.phase_diff(M, E)),
                   parts=[repr(o)[:80] for o in dec][:10], **wit)
